@@ -31,6 +31,8 @@ pub open spec fn box_str_view(a: Box<str>) -> Seq<char> { (*a)@ }
 
 pub assume_specification<'a> [<Box<str> as From<&'a str>>::from] (s: &str) -> (r: Box<str>)
     ensures box_str_view(r) == s@;
+pub assume_specification<'a> [<std::sync::Arc<str> as From<&'a str>>::from] (s: &str) -> (r: std::sync::Arc<str>)
+    ensures arc_str_view(r) == s@;
 pub assume_specification [<Box<str> as From<String>>::from] (s: String) -> (r: Box<str>)
     ensures box_str_view(r) == s@;
 pub assume_specification<T> [std::mem::replace] (dest: &mut T, src: T) -> (r: T)
